@@ -24,6 +24,19 @@ Theorem C03_collect_sound : forall rs, collect None rs = None -> Forall (fun r =
 Proof. exact collect_sound. Qed.
 Print Assumptions C03_collect_sound.
 
+(* an index entry of a media type the client does not know that the source serves as a manifest (an OCI artifact
+   manifest): its result is the result of its image copy, whatever a blob copy of the same digest would answer - a
+   failure or cancellation inside the nested copy is never replaced by the success of a blob copy; an entry that
+   could not be fetched under a cancelled context reports the cancellation.  The pre-repair rule (any error of the
+   image copy falls back to the blob copy) is refuted: a cancelled image copy and a successful blob copy gave nil *)
+Theorem C03_unknown_entry_not_masked : forall ctx img blob,
+  entry_unknown true ctx img blob = img /\ entry_unknown false true img blob = Some ECanceled.
+Proof. intros. split; reflexivity. Qed.
+Print Assumptions C03_unknown_entry_not_masked.
+Theorem C03_unknown_entry_old_refuted : exists img blob, img <> None /\ entry_unknown_old img blob = None.
+Proof. exists (Some ECanceled), None. split; [discriminate|reflexivity]. Qed.
+Print Assumptions C03_unknown_entry_old_refuted.
+
 Example C03_nonvacuous :
   let refs := fun d => match d with 10 => [1; 2] | 20 => [10; 11] | 11 => [2; 3] | _ => [] end in
   exists s, mrun refs (minit [2] None)
